@@ -9,6 +9,7 @@ import (
 	"fmt"
 	"net"
 	"net/http"
+	"net/url"
 	"sort"
 	"strings"
 	"sync"
@@ -26,7 +27,9 @@ var hosts = []string{"a.test", "b.a.test", "*.test", "*.a.test", "*.*.test", "",
 var paths = []string{"", "/p", "/p/q", "/pq", "/P"}
 
 var reqHosts = []string{"a.test", "A.TEST", "a.test:8080", "b.a.test", "c.b.a.test", "x.test", "other.example", "test", "B.a.Test:9"}
-var reqPaths = []string{"/", "/p", "/p/", "/p/q/r", "/pq", "/pz", "/P", "/x"}
+
+// (the last two spell /p/q/r with a percent-encoded letter and a percent-encoded slash inside the prefix: the site is chosen by the decoded path)
+var reqPaths = []string{"/", "/p", "/p/", "/p/q/r", "/pq", "/pz", "/P", "/x", "/%70/q/r", "/p%2Fq/r"}
 
 func init() {
 	httpserver.RegisterDevDirective("verif_fallback", "")
@@ -39,6 +42,13 @@ func init() {
 }
 
 // ---- reference model (lists only) ----
+
+func decoded(p string) string {
+	if d, err := url.PathUnescape(p); err == nil {
+		return d
+	}
+	return p
+}
 
 func isCatchAll(h string) bool { return h == "" || h == "0.0.0.0" || h == "[::]" }
 
@@ -233,7 +243,7 @@ func main() {
 							rec, pv, _ := kit.ServeReq(srv, r)
 							rep.Eval(1)
 							got := outcome(rec, pv, rh, proto)
-							want := expected(sites, fb, rh, rp)
+							want := expected(sites, fb, rh, decoded(rp))
 							key := fmt.Sprintf("%s %s %d", rh, rp, proto)
 							cur[key] = got
 							ok := false
